@@ -462,3 +462,795 @@ Proof.
       intros i v Hi He Hn. specialize (Hpend i v Hi He Hn).
       destruct (Nat.eq_dec i id) as [->|Hne]; [congruence | lia].
 Qed.
+
+(* --- phase 3: extend groups ---------------------------------------------- *)
+
+Definition keys_ok (u : ubuilder) : Prop :=
+  all_keys (ub_unit u) <> [] /\ NoDup (all_keys (ub_unit u)) /\
+  forall k, In k (all_keys (ub_unit u)) -> blank_key k = false.
+
+(* the index describes all units except those of [U], whose keys are absent from it
+   (apply_extend_groups removes a unit and its SI expansions, edits them, and adds them again) *)
+Record PWF (U : nat -> Prop) (units : list ubuilder) (ix : index) : Prop := {
+  p_fwd : forall i u k, ~ U i -> nth_error units i = Some u -> In k (all_keys (ub_unit u)) ->
+            find k ix = Some i;
+  p_bwd : forall k i, find k ix = Some i ->
+            ~ U i /\ exists u, nth_error units i = Some u /\ In k (all_keys (ub_unit u));
+  p_keys : forall i u, ~ U i -> nth_error units i = Some u -> keys_ok u;
+}.
+
+Definition EXP (units : list ubuilder) : Prop :=
+  forall i u f, nth_error units i = Some u -> ub_expanded u = Some f ->
+    ub_expand_si u = true /\
+    forall p, f p <> i /\ (forall p', f p' = f p -> p' = p) /\
+              exists e, nth_error units (f p) = Some e /\ ub_expanded e = None /\ ub_expand_si e = false.
+
+Lemma WF_split units ix : WF units ix <-> PWF (fun _ => False) units ix /\ EXP units.
+Proof.
+  split.
+  - intro W. split; [constructor|].
+    + intros i u k _. apply (wf_fwd _ _ W).
+    + intros k i H. split; [tauto | exact (wf_bwd _ _ W k i H)].
+    + intros i u _ H. exact (wf_keys _ _ W i u H).
+    + exact (wf_exp _ _ W).
+  - intros [P E]. constructor.
+    + intros i u k. apply (p_fwd _ _ _ P). tauto.
+    + intros k i H. exact (proj2 (p_bwd _ _ _ P k i H)).
+    + intros i u. apply (p_keys _ _ _ P). tauto.
+    + exact E.
+Qed.
+
+Lemma PWF_ext (U U' : nat -> Prop) units ix : (forall i, U i <-> U' i) -> PWF U units ix -> PWF U' units ix.
+Proof.
+  intros E P. constructor.
+  - intros i u k N. apply (p_fwd _ _ _ P). intro H. apply N. apply E. exact H.
+  - intros k i H. destruct (p_bwd _ _ _ P k i H) as [N X]. split; [|exact X].
+    intro H'. apply N. apply E. exact H'.
+  - intros i u N. apply (p_keys _ _ _ P). intro H. apply N. apply E. exact H.
+Qed.
+
+Lemma PWF_remove (U : nat -> Prop) units ix j u :
+  PWF U units ix -> ~ U j -> nth_error units j = Some u ->
+  PWF (fun i => U i \/ i = j) units (index_remove_unit (ub_unit u) ix).
+Proof.
+  intros P Nj Hj. constructor.
+  - intros i v k N Hi Hk. rewrite remove_unit_find.
+    assert (Hf : find k ix = Some i) by (apply (p_fwd _ _ _ P i v k); tauto).
+    destruct (in_keys k (all_keys (ub_unit u))) eqn:Ein; [|exact Hf].
+    apply in_keys_In in Ein. rewrite (p_fwd _ _ _ P j u k Nj Hj Ein) in Hf. injection Hf as Hji.
+    exfalso. apply N. right. symmetry. exact Hji.
+  - intros k i Hf. rewrite remove_unit_find in Hf.
+    destruct (in_keys k (all_keys (ub_unit u))) eqn:Ein; [discriminate|].
+    destruct (p_bwd _ _ _ P k i Hf) as [N (v & Hv & Hk)]. split; [|eauto].
+    intros [H|H]; [tauto|]. subst i. rewrite Hj in Hv. injection Hv as <-.
+    apply in_keys_not in Ein. tauto.
+  - intros i v N. apply (p_keys _ _ _ P). tauto.
+Qed.
+
+Lemma PWF_set (U : nat -> Prop) units ix j x units' :
+  PWF U units ix -> U j -> set_nth j x units = Some units' -> PWF U units' ix.
+Proof.
+  intros P Uj E. destruct (set_nth_spec x _ _ _ E) as (_ & _ & _ & Ho).
+  assert (Hne : forall i, ~ U i -> nth_error units' i = nth_error units i).
+  { intros i N. apply Ho. intro Hij. subst i. tauto. }
+  constructor.
+  - intros i u k N Hi. rewrite Hne in Hi by exact N. exact (p_fwd _ _ _ P i u k N Hi).
+  - intros k i Hf. destruct (p_bwd _ _ _ P k i Hf) as [N (v & Hv & Hk)]. split; [exact N|].
+    exists v. rewrite Hne by exact N. split; assumption.
+  - intros i u N Hi. rewrite Hne in Hi by exact N. exact (p_keys _ _ _ P i u N Hi).
+Qed.
+
+Lemma PWF_add (U : nat -> Prop) units ix j u ix' :
+  PWF U units ix -> nth_error units j = Some u -> index_add_unit (ub_unit u) j ix = ROk ix' ->
+  PWF (fun i => U i /\ i <> j) units ix'.
+Proof.
+  intros P Hj E. apply add_unit_index_spec in E as (Hne & Hnd & Hnew & Hfind). constructor.
+  - intros i v k N Hi Hk. rewrite Hfind. destruct (Nat.eq_dec i j) as [Hij|Hij].
+    + subst i. rewrite Hj in Hi. injection Hi as <-. apply in_keys_In in Hk. rewrite Hk. reflexivity.
+    + assert (Ni : ~ U i) by tauto. pose proof (p_fwd _ _ _ P i v k Ni Hi Hk) as Hf.
+      destruct (in_keys k (all_keys (ub_unit u))) eqn:Ein; [|exact Hf].
+      apply in_keys_In in Ein. destruct (Hnew k Ein) as [Hn _]. congruence.
+  - intros k i Hf. rewrite Hfind in Hf. destruct (in_keys k (all_keys (ub_unit u))) eqn:Ein.
+    + injection Hf as <-. split; [intros [_ H]; apply H; reflexivity|].
+      exists u. split; [exact Hj | apply in_keys_In; exact Ein].
+    + destruct (p_bwd _ _ _ P k i Hf) as [N X]. split; [tauto | exact X].
+  - intros i v N Hi. destruct (Nat.eq_dec i j) as [Hij|Hij].
+    + subst i. rewrite Hj in Hi. injection Hi as <-. split; [exact Hne|]. split; [exact Hnd|].
+      intros k Hk. apply Hnew. exact Hk.
+    + apply (p_keys _ _ _ P i v); [tauto | exact Hi].
+Qed.
+
+Definition same_shape (x old : ubuilder) : Prop :=
+  (ub_expanded x = ub_expanded old /\ ub_expand_si x = ub_expand_si old) \/ fresh_unit x.
+
+Lemma EXP_set units j old x units' :
+  EXP units -> nth_error units j = Some old -> set_nth j x units = Some units' -> same_shape x old ->
+  EXP units'.
+Proof.
+  intros E Hj Es Hx. destruct (set_nth_spec x _ _ _ Es) as (_ & _ & Hat & Ho).
+  assert (Hleaf : forall i e, nth_error units i = Some e -> ub_expanded e = None -> ub_expand_si e = false ->
+            exists e', nth_error units' i = Some e' /\ ub_expanded e' = None /\ ub_expand_si e' = false).
+  { intros i e Hi H1 H2. destruct (Nat.eq_dec i j) as [Hij|Hij].
+    - subst i. exists x. split; [exact Hat|]. rewrite Hj in Hi. injection Hi as <-.
+      destruct Hx as [[A B]|[A B]]; [rewrite A, B; tauto | tauto].
+    - exists e. rewrite Ho by exact Hij. tauto. }
+  intros i u f Hi Hf. destruct (Nat.eq_dec i j) as [Hij|Hij].
+  - subst i. rewrite Hat in Hi. injection Hi as <-.
+    destruct Hx as [[A B]|[A B]]; [|congruence].
+    rewrite A in Hf. destruct (E j old f Hj Hf) as [He Hp]. split; [congruence|].
+    intro p. destruct (Hp p) as (H1 & H2 & e & H3 & H4 & H5). split; [exact H1|]. split; [exact H2|].
+    exact (Hleaf _ _ H3 H4 H5).
+  - rewrite Ho in Hi by exact Hij. destruct (E i u f Hi Hf) as [He Hp]. split; [exact He|].
+    intro p. destruct (Hp p) as (H1 & H2 & e & H3 & H4 & H5). split; [exact H1|]. split; [exact H2|].
+    exact (Hleaf _ _ H3 H4 H5).
+Qed.
+
+Lemma AllExpanded_set units j old x units' :
+  AllExpanded units -> nth_error units j = Some old -> set_nth j x units = Some units' -> same_shape x old ->
+  AllExpanded units'.
+Proof.
+  intros A Hj Es Hx. destruct (set_nth_spec x _ _ _ Es) as (_ & _ & Hat & Ho).
+  intros i u Hi He. destruct (Nat.eq_dec i j) as [Hij|Hij].
+  - subst i. rewrite Hat in Hi. injection Hi as <-. destruct Hx as [[X Y]|[X Y]]; [|congruence].
+    rewrite X. apply (A j old Hj). congruence.
+  - rewrite Ho in Hi by exact Hij. exact (A i u Hi He).
+Qed.
+
+(* UnitIndex::remove_unit_rec: two levels are enough *)
+Lemma remove_rec_eq fuel units u ix :
+  index_remove_rec (S fuel) units u ix =
+  obind (match ub_expanded u with
+         | None => Done ix
+         | Some f =>
+             fold_left (fun acc p =>
+                          obind acc (fun ix =>
+                            match nth_error units (f p) with
+                            | Some e => index_remove_rec fuel units e ix
+                            | None => Panic site_remove_index
+                            end))
+                       all_sipre (Done ix)
+         end)
+        (fun ix => Done (index_remove_unit (ub_unit u) ix)).
+Proof. reflexivity. Qed.
+
+Lemma remove_rec_leaf n units e ix :
+  ub_expanded e = None -> index_remove_rec (S n) units e ix = Done (index_remove_unit (ub_unit e) ix).
+Proof. intro H. rewrite remove_rec_eq, H. reflexivity. Qed.
+
+Lemma remove_fold_spec units (f : sipre -> nat) n :
+  (forall p, exists e, nth_error units (f p) = Some e /\ ub_expanded e = None) ->
+  (forall p p', f p' = f p -> p' = p) ->
+  forall ps (U : nat -> Prop) ix, NoDup ps -> PWF U units ix -> (forall p, In p ps -> ~ U (f p)) ->
+  exists ix',
+    fold_left (fun acc p =>
+                 obind acc (fun ix =>
+                   match nth_error units (f p) with
+                   | Some e => index_remove_rec (S n) units e ix
+                   | None => Panic site_remove_index
+                   end)) ps (Done ix) = Done ix' /\
+    PWF (fun i => U i \/ exists p, In p ps /\ i = f p) units ix'.
+Proof.
+  intros Hleaf Hinj. induction ps as [|p r IH]; intros U ix ND P HU.
+  - exists ix. split; [reflexivity|]. eapply PWF_ext; [|exact P].
+    intro i. split; [tauto|]. intros [H|(p & [] & _)]. exact H.
+  - inversion ND as [|? ? Hp ND']; subst. cbn [fold_left obind].
+    destruct (Hleaf p) as (e & He & Hn). rewrite He, (remove_rec_leaf n units e ix Hn).
+    destruct (IH (fun i => U i \/ i = f p) (index_remove_unit (ub_unit e) ix) ND') as (ix' & E & P').
+    + apply PWF_remove; [exact P | apply HU; left; reflexivity | exact He].
+    + intros p' Hp' [H|H]; [exact (HU p' (or_intror Hp') H)|].
+      apply Hinj in H. subst p'. exact (Hp Hp').
+    + exists ix'. split; [exact E|]. eapply PWF_ext; [|exact P'].
+      intro i. split.
+      * intros [[H|H]|(p' & Hp' & H)]; [tauto | right; exists p; split; [left; reflexivity | exact H] |
+                                          right; exists p'; split; [right; exact Hp' | exact H]].
+      * intros [H|(p' & [Hp'|Hp'] & H)]; [tauto | subst p'; tauto | right; exists p'; tauto].
+Qed.
+
+(* the state between removal and re-insertion *)
+Definition Mid (U : nat -> Prop) (n : nat) (id : nat) (base : ubuilder) (r : list ubuilder * index) : Prop :=
+  PWF U (fst r) (snd r) /\ EXP (fst r) /\ AllExpanded (fst r) /\
+  length (fst r) = n /\ nth_error (fst r) id = Some base.
+
+Lemma update_loop_spec id base f new :
+  ub_expanded base = Some f -> (forall p, fresh_unit (new p)) ->
+  forall ps (U : nat -> Prop) units ix, NoDup ps ->
+    Mid U (length units) id base (units, ix) -> (forall p, In p ps -> U (f p)) ->
+    spec (update_loop ps id new units ix)
+         (Mid (fun i => U i /\ ~ exists p, In p ps /\ i = f p) (length units) id base).
+Proof.
+  intros Hf Hnew. induction ps as [|p r IH]; intros U units ix ND (P & E & A & _ & Hb) HU;
+    cbn [update_loop].
+  - cbn. split; [|tauto]. eapply PWF_ext; [|exact P]. intro i. split; [|tauto].
+    intro H. split; [exact H|]. intros (p & [] & _).
+  - inversion ND as [|? ? Hp ND']; subst. cbn [fst snd] in *.
+    unfold get_ub at 1. rewrite Hb. cbn [bind ret]. rewrite Hf.
+    destruct (E id base f Hb Hf) as [_ Hall]. destruct (Hall p) as (Hne & Hinj & e & He & _).
+    unfold get_ub. rewrite He. cbn [bind ret].
+    match goal with |- spec (bind (set_ub _ _ _ ?x) _) _ => set (nu := x) end.
+    assert (Hfresh : fresh_unit nu) by (destruct (Hnew p) as [X Y]; split; [exact X | exact Y]).
+    unfold set_ub. destruct (set_nth_some nu units (f p)) as [units' Es].
+    { apply nth_error_Some. congruence. }
+    rewrite Es. cbn [bind ret].
+    destruct (set_nth_spec nu _ _ _ Es) as (_ & Hlen & Hat & Ho).
+    destruct (index_add_unit (ub_unit nu) (f p) ix) as [ix'|err] eqn:Ea; cbn [lift bind]; [|exact I].
+    rewrite <- Hlen.
+    eapply spec_weaken.
+    + apply (IH (fun i => U i /\ i <> f p) units' ix' ND').
+      * split; [|split; [|split; [|split]]]; cbn [fst snd].
+        -- eapply PWF_add; [|exact Hat | exact Ea].
+           eapply PWF_set; [exact P | apply HU; left; reflexivity | exact Es].
+        -- eapply EXP_set; [exact E | exact He | exact Es | right; exact Hfresh].
+        -- eapply AllExpanded_set; [exact A | exact He | exact Es | right; exact Hfresh].
+        -- reflexivity.
+        -- rewrite Ho by (intro X; apply Hne; symmetry; exact X). exact Hb.
+      * intros p' Hp'. split; [apply HU; right; exact Hp'|].
+        intro X. apply Hinj in X. subst p'. exact (Hp Hp').
+    + intros [units2 ix2] (P2 & E2 & A2 & L2 & B2). cbn [fst snd] in *.
+      split; [|tauto]. eapply PWF_ext; [|exact P2]. intro i. split.
+      * intros [[H1 H2] H3]. split; [exact H1|]. intros (p' & [Hp'|Hp'] & X).
+        -- subst p'. tauto.
+        -- apply H3. exists p'. tauto.
+      * intros [H1 H2]. split; [split; [exact H1|]|].
+        -- intro X. apply H2. exists p. split; [left; reflexivity | exact X].
+        -- intros (p' & Hp' & X). apply H2. exists p'. split; [right; exact Hp' | exact X].
+Qed.
+
+Definition Inv (r : list ubuilder * index) : Prop := WF (fst r) (snd r) /\ AllExpanded (fst r).
+
+Lemma with_unit_shape u c : same_shape (with_unit u c) u.
+Proof. left. split; reflexivity. Qed.
+
+(* one entry of the second loop of apply_extend_groups *)
+Lemma apply_updates_spec p si : forall ups units ix,
+  Inv (units, ix) -> Forall (fun x => (fst x < length units)%nat) ups ->
+  spec (apply_updates ups p si units ix) (fun r => Inv r /\ length (fst r) = length units).
+Proof.
+  induction ups as [|[id e] r IH]; intros units ix [W A] Hups; cbn [apply_updates].
+  - cbn. split; [split; assumption | reflexivity].
+  - cbn [fst snd] in *. inversion Hups as [|? ? Hid Hups']; subst. cbn [fst] in Hid.
+    apply WF_split in W as [P E].
+    destruct (nth_error units id) as [u|] eqn:Hu; [|apply nth_error_None in Hu; lia].
+    unfold get_ub at 1. rewrite Hu. cbn [bind ret].
+    set (u' := with_unit u (edit_unit (ub_unit u) e p)).
+    (* the removal *)
+    assert (Hrem : exists ix1 (U : nat -> Prop),
+               index_remove_rec 2 units u ix = Done ix1 /\ PWF U units ix1 /\ U id /\
+               match ub_expanded u with
+               | None => forall i, U i -> i = id
+               | Some f => (forall i, U i -> i = id \/ exists q, i = f q) /\ forall q, U (f q)
+               end).
+    { rewrite remove_rec_eq. destruct (ub_expanded u) as [f|] eqn:Hf.
+      - destruct (E id u f Hu Hf) as [_ Hall].
+        destruct (remove_fold_spec units f 0) with (ps := all_sipre) (U := fun _ : nat => False) (ix := ix)
+          as (ix1 & -> & P1).
+        + intro q. destruct (Hall q) as (_ & _ & x & Hx & Hn & _). eauto.
+        + intros q q' X. destruct (Hall q) as (_ & Hinj & _). apply Hinj. exact X.
+        + exact NoDup_all_sipre.
+        + exact P.
+        + tauto.
+        + cbn [obind]. eexists. exists (fun i => (False \/ exists q, In q all_sipre /\ i = f q) \/ i = id).
+          split; [reflexivity|]. split; [|split; [right; reflexivity|split]].
+          * apply PWF_remove; [exact P1 | | exact Hu].
+            intros [[]|(q & _ & X)]. destruct (Hall q) as (Hne & _). apply Hne. symmetry. exact X.
+          * intros i [[[]|(q & _ & X)]|X]; [right; exists q; exact X | left; exact X].
+          * intro q. left. right. exists q. split; [apply In_all_sipre | reflexivity].
+      - cbn [obind]. eexists. exists (fun i => False \/ i = id).
+        split; [reflexivity|]. split; [|split; [right; reflexivity|]].
+        + apply PWF_remove; [exact P | tauto | exact Hu].
+        + intros i [[]|X]. exact X. }
+    destruct Hrem as (ix1 & U & -> & P1 & Uid & HU).
+    unfold set_ub. destruct (set_nth_some u' units id Hid) as [units1 Es]. rewrite Es. cbn [bind ret].
+    destruct (set_nth_spec u' _ _ _ Es) as (_ & Hlen1 & Hat1 & Ho1).
+    assert (M1 : Mid U (length units1) id u' (units1, ix1)).
+    { split; [|split; [|split; [|split]]]; cbn [fst snd].
+      - eapply PWF_set; [exact P1 | exact Uid | exact Es].
+      - eapply EXP_set; [exact E | exact Hu | exact Es | apply with_unit_shape].
+      - eapply AllExpanded_set; [exact A | exact Hu | exact Es | apply with_unit_shape].
+      - reflexivity.
+      - exact Hat1. }
+    eapply spec_bind with (P := Mid (fun i => i = id) (length units1) id u').
+    + change (ub_expand_si u') with (ub_expand_si u).
+      destruct (ub_expand_si u) eqn:Hx.
+      * (* the SI expansions are recomputed *)
+        destruct (ub_expanded u) as [f|] eqn:Hf; [|exfalso; exact (A id u Hu Hx Hf)].
+        destruct HU as [HU1 HU2].
+        unfold update_expanded_units, get_ub. rewrite Hat1. cbn [bind ret].
+        unfold expand_si. change (ub_expand_si u') with (ub_expand_si u). rewrite Hx. cbn [negb].
+        destruct (si_prefixes si) as [pt|]; [|cbn; exact I].
+        destruct (si_symbol_prefixes si) as [st|]; [|cbn; exact I].
+        cbn [bind ret].
+        eapply spec_weaken.
+        -- apply (update_loop_spec id u' f (expanded_unit (ub_unit u') pt st)) with (U := U).
+           ++ exact Hf.
+           ++ intro q. apply expanded_unit_fresh.
+           ++ exact NoDup_all_sipre.
+           ++ exact M1.
+           ++ intros q _. apply HU2.
+        -- intros [units2 ix2] (P2 & R2). split; [|exact R2]. eapply PWF_ext; [|exact P2].
+           intro i. cbn [fst snd]. split.
+           ++ intros [H1 H2]. destruct (HU1 i H1) as [X|(q & X)]; [exact X|].
+              exfalso. apply H2. exists q. split; [apply In_all_sipre | exact X].
+           ++ intro X. subst i. split; [exact Uid|]. intros (q & _ & X).
+              destruct (proj1 M1) as [_ _ _]. destruct M1 as (_ & E1 & _).
+              destruct (E1 id u' f Hat1 Hf) as [_ Hall]. destruct (Hall q) as (Hne & _).
+              apply Hne. symmetry. exact X.
+      * cbn. destruct M1 as (PM & R1). split; [|exact R1]. eapply PWF_ext; [|exact PM].
+        intro i. cbn [fst snd]. split; [|intro X; subst i; exact Uid].
+        destruct (ub_expanded u) as [f|] eqn:Hf.
+        -- destruct (E id u f Hu Hf) as [X _]. congruence.
+        -- apply HU.
+    + intros [units2 ix2] (P2 & E2 & A2 & L2 & B2). cbn [fst snd] in *.
+      unfold get_ub. rewrite B2. cbn [bind ret].
+      destruct (index_add_unit (ub_unit u') id ix2) as [ix3|err] eqn:Ea; cbn [lift bind]; [|exact I].
+      eapply spec_weaken.
+      * apply IH.
+        -- split; [|exact A2]. cbn [fst snd]. apply WF_split. split; [|exact E2].
+           eapply PWF_ext; [|eapply PWF_add; [exact P2 | exact B2 | exact Ea]].
+           intro i. cbn. tauto.
+        -- rewrite L2, Hlen1. exact Hups'.
+      * intros r2 [I2 L]. split; [exact I2|]. rewrite L, L2, Hlen1. reflexivity.
+Qed.
+
+Lemma resolve_entries_spec units ix : WF units ix -> forall es acc,
+  Forall (fun x : nat * ext_entry => (fst x < length units)%nat) acc ->
+  spec (resolve_entries es units ix acc)
+       (Forall (fun x : nat * ext_entry => (fst x < length units)%nat)).
+Proof.
+  intros W. induction es as [|[k e] r IH]; intros acc Hacc; cbn [resolve_entries].
+  - exact Hacc.
+  - unfold get_unit_id. destruct (find k ix) as [id|] eqn:Hf; cbn [lift bind]; [|exact I].
+    destruct (existsb _ acc); [exact I|].
+    destruct (wf_bwd _ _ W k id Hf) as (u & Hu & _).
+    unfold get_ub. rewrite Hu. cbn [bind ret].
+    destruct (_ && _); [exact I|].
+    apply IH. apply Forall_app. split; [exact Hacc|]. constructor; [|constructor].
+    cbn [fst]. apply nth_error_Some. congruence.
+Qed.
+
+Lemma apply_extend_groups_spec si : forall exts units ix, Inv (units, ix) ->
+  spec (apply_extend_groups exts si units ix) Inv.
+Proof.
+  induction exts as [|g r IH]; intros units ix I0; cbn [apply_extend_groups].
+  - exact I0.
+  - eapply spec_bind; [apply resolve_entries_spec; [exact (proj1 I0) | constructor]|].
+    intros ups Hups. eapply spec_bind; [apply apply_updates_spec; [exact I0 | exact Hups]|].
+    intros [units' ix'] [I1 _]. apply IH. exact I1.
+Qed.
+
+(* --- phase 4: best lists -------------------------------------------------- *)
+
+Definition ratio_le2 (x y : nat * cunit) : Prop := (ratio (snd x) <= ratio (snd y))%Q.
+
+Lemma ins_by_ratio_perm x l : Permutation (x :: l) (ins_by_ratio x l).
+Proof.
+  induction l as [|y r IH]; cbn [ins_by_ratio]; [apply Permutation_refl|].
+  destruct (Qle_bool _ _); [apply Permutation_refl|].
+  eapply perm_trans; [apply perm_swap|]. apply perm_skip. exact IH.
+Qed.
+
+Lemma sort_perm l : Permutation l (sort_by_ratio l).
+Proof.
+  induction l as [|x r IH]; cbn; [constructor|].
+  eapply perm_trans; [apply perm_skip; exact IH | apply ins_by_ratio_perm].
+Qed.
+
+Lemma ins_hdrel a x l : ratio_le2 a x -> HdRel ratio_le2 a l -> HdRel ratio_le2 a (ins_by_ratio x l).
+Proof.
+  intros H1 H2. destruct l as [|y r]; cbn [ins_by_ratio]; [constructor; exact H1|].
+  destruct (Qle_bool _ _); constructor; [exact H1 | inversion H2; assumption].
+Qed.
+
+Lemma ins_sorted x l : Sorted ratio_le2 l -> Sorted ratio_le2 (ins_by_ratio x l).
+Proof.
+  induction l as [|y r IH]; intro H; cbn [ins_by_ratio]; [repeat constructor|].
+  destruct (Qle_bool (ratio (snd x)) (ratio (snd y))) eqn:E.
+  - constructor; [exact H|]. constructor. apply Qle_bool_iff. exact E.
+  - inversion H as [|? ? Hs Hh]; subst. constructor; [apply IH; exact Hs|].
+    apply ins_hdrel; [|exact Hh]. unfold ratio_le2.
+    destruct (Qlt_le_dec (ratio (snd y)) (ratio (snd x))) as [L|L]; [apply Qlt_le_weak; exact L|].
+    apply Qle_bool_iff in L. congruence.
+Qed.
+
+Lemma sort_sorted l : Sorted ratio_le2 (sort_by_ratio l).
+Proof. induction l as [|x r IH]; cbn; [constructor | apply ins_sorted; exact IH]. Qed.
+
+Definition id_ok (units : list ubuilder) (q : pq) (x : nat * cunit) : Prop :=
+  exists ub, nth_error units (fst x) = Some ub /\ snd x = ub_unit ub /\ quantity (snd x) = q.
+
+Lemma id_ok_nth units q x :
+  id_ok units q x -> nth_error (map ub_unit units) (fst x) = Some (snd x) /\ quantity (snd x) = q.
+Proof.
+  intros (ub & H1 & H2 & H3). split; [|exact H3]. rewrite H2. apply map_nth_error. exact H1.
+Qed.
+
+Definition Bounded (units : list ubuilder) (ix : index) : Prop :=
+  forall k i, find k ix = Some i -> (i < length units)%nat.
+
+Lemma WF_Bounded units ix : WF units ix -> Bounded units ix.
+Proof.
+  intros W k i H. destruct (wf_bwd _ _ W k i H) as (u & Hu & _). apply nth_error_Some. congruence.
+Qed.
+
+Lemma best_ids_spec q ix units : Bounded units ix ->
+  forall ns, spec (best_ids cfg_new q ns ix units)
+                  (fun l => length l = length ns /\ Forall (id_ok units q) l).
+Proof.
+  intros Hb. induction ns as [|n r IH]; cbn [best_ids].
+  - cbn. split; [reflexivity | constructor].
+  - unfold get_unit_id. destruct (find n ix) as [id|] eqn:Hf; cbn [lift bind]; [|exact I].
+    destruct (nth_error units id) as [u|] eqn:Hu;
+      [|apply nth_error_None in Hu; specialize (Hb _ _ Hf); lia].
+    unfold get_ub. rewrite Hu. cbn [bind ret].
+    change (check_best_quantity cfg_new) with true. cbn [andb].
+    destruct (pq_eqb (quantity (ub_unit u)) q) eqn:Eq; cbn [negb]; [|exact I].
+    eapply spec_bind; [exact IH|]. intros rest [L F]. cbn. split; [congruence|].
+    constructor; [|exact F]. exists u. cbn [fst snd]. split; [exact Hu|]. split; [reflexivity|].
+    apply pq_eqb_eq. exact Eq.
+Qed.
+
+Lemma best_thresholds_spec base : forall l,
+  Forall (fun x : nat * cunit => quantity (snd x) = quantity base) l ->
+  best_thresholds base l = Done (map (fun x => (threshold_of (snd x) base, fst x)) l).
+Proof.
+  induction l as [|[id u] r IH]; intro F; cbn [best_thresholds map]; [reflexivity|].
+  inversion F as [|? ? Hq F']; subst. cbn [snd fst] in *. unfold convert_q. rewrite Hq.
+  assert (pq_eqb (quantity base) (quantity base) = true) as -> by (apply pq_eqb_eq; reflexivity).
+  cbn [obind]. rewrite (IH F'). cbn [obind]. reflexivity.
+Qed.
+
+Lemma sorted_ids units q l :
+  Forall (id_ok units q) l -> Sorted ratio_le2 l -> Sorted (ratio_le (map ub_unit units)) (map fst l).
+Proof.
+  intros F Hs. induction Hs as [|a l Hs IH Hh]; cbn [map]; [constructor|].
+  inversion F as [|? ? Fa Fl]; subst. constructor; [apply IH; exact Fl|].
+  destruct Hh as [|b l' Hab]; cbn [map]; constructor.
+  inversion Fl as [|? ? Fb _]; subst.
+  destruct (id_ok_nth _ _ _ Fa) as [Ha _]. destruct (id_ok_nth _ _ _ Fb) as [Hb' _].
+  exists (snd a), (snd b). split; [exact Ha|]. split; [exact Hb' | exact Hab].
+Qed.
+
+Lemma best_new_spec q ns ix units : Bounded units ix -> ns <> [] ->
+  spec (best_new cfg_new q ns ix units) (best_list_ok (map ub_unit units) q).
+Proof.
+  intros Hb Hne. unfold best_new. eapply spec_bind; [apply best_ids_spec; exact Hb|].
+  intros ids [L F].
+  pose proof (sort_perm ids) as Pm. pose proof (sort_sorted ids) as Hs.
+  assert (F' : Forall (id_ok units q) (sort_by_ratio ids)) by (eapply Permutation_Forall; eassumption).
+  destruct (sort_by_ratio ids) as [|[bid bu] rest] eqn:Es.
+  - apply Permutation_length in Pm. cbn in Pm. destruct ns; [congruence | cbn in L; lia].
+  - inversion F' as [|? ? Hbase Frest]; subst.
+    destruct (id_ok_nth _ _ _ Hbase) as [Hbn Hbq]. cbn [fst snd] in Hbn, Hbq.
+    rewrite best_thresholds_spec.
+    2:{ eapply Forall_impl; [|exact Frest]. intros x Hx. destruct (id_ok_nth _ _ _ Hx) as [_ Hq]. congruence. }
+    cbn [spec ret]. split; [|split].
+    + exists bid, (map (fun x => (threshold_of (snd x) bu, fst x)) rest). split; [reflexivity|].
+      intros th i Hin. apply in_map_iff in Hin as (x & Hx & Hin). injection Hx as <- <-.
+      rewrite Forall_forall in Frest. destruct (id_ok_nth _ _ _ (Frest x Hin)) as [Hxn _].
+      exists (snd x), bu. split; [exact Hxn|]. split; [exact Hbn | reflexivity].
+    + intros th i [Hin|Hin].
+      * injection Hin as _ <-. exists bu. split; assumption.
+      * apply in_map_iff in Hin as (x & Hx & Hin). injection Hx as _ <-.
+        rewrite Forall_forall in Frest. destruct (id_ok_nth _ _ _ (Frest x Hin)) as [Hxn Hxq].
+        exists (snd x). split; assumption.
+    + replace (map snd ((1%Q, bid) :: map (fun x => (threshold_of (snd x) bu, fst x)) rest))
+        with (map fst ((bid, bu) :: rest)).
+      * eapply sorted_ids; [exact F' | exact Hs].
+      * cbn [map fst snd]. f_equal. rewrite map_map. reflexivity.
+Qed.
+
+Lemma store_new_spec q b ix units : Bounded units ix -> best_is_empty b = false ->
+  spec (store_new cfg_new q b ix units) (best_store_ok (map ub_unit units) q).
+Proof.
+  intros Hb He. destruct b as [ns|m i]; cbn [store_new].
+  - eapply spec_bind; [apply best_new_spec; [exact Hb|]|].
+    + intro X. subst ns. discriminate.
+    + intros l Hl. exact Hl.
+  - assert (m <> [] /\ i <> []) as [Hm Hi].
+    { cbn in He. destruct m; [discriminate|]. destruct i; [discriminate|]. split; discriminate. }
+    eapply spec_bind; [apply best_new_spec; [exact Hb | exact Hm]|]. intros lm Hlm.
+    eapply spec_bind; [apply best_new_spec; [exact Hb | exact Hi]|]. intros li Hli.
+    cbn. split; assumption.
+Qed.
+
+Lemma best_for_spec best ix units q : Bounded units ix -> BestNonEmpty best ->
+  spec (best_for cfg_new best ix units q) (best_store_ok (map ub_unit units) q).
+Proof.
+  intros Hb Hn. unfold best_for. destruct (best q) as [b|] eqn:E; [|exact I].
+  apply store_new_spec; [exact Hb | exact (Hn q b E)].
+Qed.
+
+(* --- phase 5: fractions ----------------------------------------------------- *)
+
+Lemma frac_units_of_total al me im qs ix units : Bounded units ix ->
+  forall es acc, spec (frac_units_of es al me im qs ix units acc) (fun _ => True).
+Proof.
+  intro Hb. induction es as [|[k w] r IH]; intro acc; cbn [frac_units_of]; [exact I|].
+  unfold get_unit_id. destruct (find k ix) as [id|] eqn:Hf; cbn [lift bind]; [|exact I].
+  destruct (nth_error units id) as [u|] eqn:Hu;
+    [|apply nth_error_None in Hu; specialize (Hb _ _ Hf); lia].
+  unfold get_ub. rewrite Hu. cbn [bind ret]. apply IH.
+Qed.
+
+Lemma frac_units_total al me im qs ix units : Bounded units ix ->
+  forall frs acc, spec (frac_units frs al me im qs ix units acc) (fun _ => True).
+Proof.
+  intro Hb. induction frs as [|f r IH]; intro acc; cbn [frac_units]; [exact I|].
+  eapply spec_bind; [apply frac_units_of_total; exact Hb|]. intros acc' _. apply IH.
+Qed.
+
+Lemma build_fractions_total frs ix units : Bounded units ix ->
+  spec (build_fractions_config frs ix units) (fun _ => True).
+Proof.
+  intro Hb. unfold build_fractions_config.
+  eapply spec_bind; [apply frac_units_total; exact Hb|]. intros us _. exact I.
+Qed.
+
+(* --- finish, build ------------------------------------------------------------ *)
+
+Lemma nth_error_map_inv {A B} (f : A -> B) l i y :
+  nth_error (map f l) i = Some y -> exists x, nth_error l i = Some x /\ y = f x.
+Proof.
+  revert i. induction l as [|a r IH]; intros [|i] H; try discriminate.
+  - injection H as <-. exists a. split; reflexivity.
+  - exact (IH i H).
+Qed.
+
+Lemma WF_consistent units ix : WF units ix ->
+  index_consistent (map ub_unit units) ix /\ keys_well_formed (map ub_unit units) /\
+  no_shared_key (map ub_unit units).
+Proof.
+  intro W. split; [split|split].
+  - intros i u k Hi Hk. apply nth_error_map_inv in Hi as (x & Hx & ->). exact (wf_fwd _ _ W i x k Hx Hk).
+  - intros k i Hf. destruct (wf_bwd _ _ W k i Hf) as (x & Hx & Hk). exists (ub_unit x).
+    split; [apply map_nth_error; exact Hx | exact Hk].
+  - intros i u Hi. apply nth_error_map_inv in Hi as (x & Hx & ->). exact (wf_keys _ _ W i x Hx).
+  - intros i j u v k Hi Hj Hu Hv.
+    apply nth_error_map_inv in Hi as (x & Hx & ->). apply nth_error_map_inv in Hj as (y & Hy & ->).
+    pose proof (wf_fwd _ _ W i x k Hx Hu) as H1. pose proof (wf_fwd _ _ W j y k Hy Hv) as H2. congruence.
+Qed.
+
+Definition conv_ok (c : converter) : Prop :=
+  index_consistent (c_units c) (c_index c) /\ keys_well_formed (c_units c) /\
+  no_shared_key (c_units c) /\ forall q, best_store_ok (c_units c) q (c_best c q).
+
+Lemma finish_spec st : S1 st -> spec (finish cfg_new st) conv_ok.
+Proof.
+  intros [[W N] HB]. unfold finish. cbn [fst snd] in W, N.
+  eapply spec_bind.
+  { apply expand_loop_spec; [exact W | lia |].
+    intros i u Hi _ _. split; [lia|]. apply nth_error_Some. congruence. }
+  intros [units1 ix1] I1.
+  eapply spec_bind; [apply apply_extend_groups_spec; exact I1|].
+  intros [units ix] [W2 _]. cbn [fst snd] in W2.
+  pose proof (WF_Bounded _ _ W2) as Hb.
+  eapply spec_bind; [apply best_for_spec; [exact Hb | exact HB]|]. intros bv Hv.
+  eapply spec_bind; [apply best_for_spec; [exact Hb | exact HB]|]. intros bm Hm.
+  eapply spec_bind; [apply best_for_spec; [exact Hb | exact HB]|]. intros bl Hl.
+  eapply spec_bind; [apply best_for_spec; [exact Hb | exact HB]|]. intros bt Ht.
+  eapply spec_bind; [apply best_for_spec; [exact Hb | exact HB]|]. intros bh Hh.
+  eapply spec_bind; [apply build_fractions_total; exact Hb|]. intros fr _.
+  cbn [spec ret]. destruct (WF_consistent _ _ W2) as (C1 & C2 & C3).
+  split; [exact C1|]. split; [exact C2|]. split; [exact C3|].
+  intros []; assumption.
+Qed.
+
+Lemma build_spec files : spec (build cfg_new files) conv_ok.
+Proof.
+  unfold build. eapply spec_bind.
+  - apply spec_lift. apply add_files_S1. exact S1_init.
+  - intros st Hst. apply finish_spec. exact Hst.
+Qed.
+
+Lemma build_total files : exists r, build cfg_new files = Done r.
+Proof. exact (spec_total _ _ (build_spec files)). Qed.
+
+Lemma build_ok files c : build cfg_new files = Done (ROk c) -> conv_ok c.
+Proof. exact (spec_ok _ _ c (build_spec files)). Qed.
+
+(* --- layers: what the builder state and the converter hold after the files --- *)
+
+Lemma pq_eqb_sym a b : pq_eqb a b = pq_eqb b a.
+Proof. destruct a, b; reflexivity. Qed.
+
+Lemma bind_ok {A B} (m : M A) (f : A -> M B) b :
+  bind m f = Done (ROk b) -> exists a, m = Done (ROk a) /\ f a = Done (ROk b).
+Proof. destruct m as [[a|e]|s]; cbn; intro H; try discriminate. eauto. Qed.
+
+Lemma rbind_ok {A B} (r : bres A) (f : A -> bres B) b :
+  rbind r f = ROk b -> exists a, r = ROk a /\ f a = ROk b.
+Proof. destruct r as [a|e]; cbn; intro H; try discriminate. eauto. Qed.
+
+Lemma add_group_facts st g st' : add_group st g = ROk st' ->
+  b_default st' = b_default st /\ b_si st' = b_si st /\ b_fractions st' = b_fractions st /\
+  b_extend st' = b_extend st /\
+  forall q, b_best st' q = if pq_eqb (qg_quantity g) q
+                           then match qg_best g with Some b => Some b | None => b_best st q end
+                           else b_best st q.
+Proof.
+  unfold add_group. intro H. apply rbind_ok in H as ([units ix] & _ & H).
+  apply rbind_ok in H as (best & Hb & H). injection H as <-. cbn.
+  repeat (split; [reflexivity|]). intro q.
+  destruct (qg_best g) as [b|].
+  - destruct (best_is_empty b); [discriminate|]. injection Hb as <-. unfold set_best.
+    rewrite pq_eqb_sym. reflexivity.
+  - injection Hb as <-. destruct (pq_eqb _ _); reflexivity.
+Qed.
+
+Definition best_step (q : pq) (acc : option best_units) (g : qgroup) : option best_units :=
+  if pq_eqb (qg_quantity g) q then match qg_best g with Some b => Some b | None => acc end else acc.
+
+Lemma add_groups_facts gs : forall st st', add_groups st gs = ROk st' ->
+  b_default st' = b_default st /\ b_si st' = b_si st /\ b_fractions st' = b_fractions st /\
+  b_extend st' = b_extend st /\
+  forall q, b_best st' q = fold_left (best_step q) gs (b_best st q).
+Proof.
+  induction gs as [|g r IH]; intros st st' H; cbn [add_groups] in H.
+  - injection H as <-. repeat (split; [reflexivity|]). reflexivity.
+  - apply rbind_ok in H as (st1 & H1 & H). apply add_group_facts in H1 as (A1 & A2 & A3 & A4 & A5).
+    apply IH in H as (B1 & B2 & B3 & B4 & B5).
+    split; [congruence|]. split; [congruence|]. split; [congruence|]. split; [congruence|].
+    intro q. rewrite B5, A5. reflexivity.
+Qed.
+
+Definition tables_of (st : bstate) : option ptable * option ptable :=
+  (si_prefixes (b_si st), si_symbol_prefixes (b_si st)).
+
+Definition tables_step (acc : option ptable * option ptable) (f : units_file) :=
+  match uf_si f with
+  | Some si => (layered_table (fst acc) (si_prefixes si) (si_prec si),
+                layered_table (snd acc) (si_symbol_prefixes si) (si_prec si))
+  | None => acc
+  end.
+
+Lemma join_prefixes_layered a b p : join_prefixes a b p = layered_table a b p.
+Proof. destruct a as [a|], b as [b|]; try reflexivity. destruct p; reflexivity. Qed.
+
+Lemma add_files_facts fs : forall st st', add_files st fs = ROk st' ->
+  Some (b_default st') = last_given uf_default_system fs (Some (b_default st)) /\
+  b_fractions st' = b_fractions st ++ fractions_layers fs /\
+  tables_of st' = fold_left tables_step fs (tables_of st) /\
+  forall q, b_best st' q =
+            fold_left (fun acc f => fold_left (best_step q) (uf_quantity f) acc) fs (b_best st q).
+Proof.
+  induction fs as [|f r IH]; intros st st' H; cbn [add_files] in H.
+  - injection H as <-. cbn. rewrite app_nil_r. repeat (split; [reflexivity|]). reflexivity.
+  - apply rbind_ok in H as (st1 & H1 & H). unfold add_units_file in H1.
+    apply rbind_ok in H1 as (st0 & H0 & H1). injection H1 as <-.
+    apply add_groups_facts in H0 as (A1 & A2 & A3 & A4 & A5).
+    apply IH in H as (B1 & B2 & B3 & B4). cbn [b_default b_fractions b_best] in *.
+    split; [|split; [|split]].
+    + rewrite B1. cbn [last_given]. rewrite A1. destruct (uf_default_system f); reflexivity.
+    + rewrite B2, A3. cbn [fractions_layers flat_map]. fold (fractions_layers r).
+      destruct (uf_fractions f); [rewrite <- app_assoc|]; reflexivity.
+    + rewrite B3. cbn [fold_left]. f_equal. unfold tables_of, tables_step. cbn [b_si].
+      rewrite A2. destruct (uf_si f) as [si|]; [|reflexivity].
+      cbn [join_si si_prefixes si_symbol_prefixes fst snd]. rewrite !join_prefixes_layered. reflexivity.
+    + intro q. rewrite B4, A5. reflexivity.
+Qed.
+
+(* what finish passes through *)
+Definition FinishFacts (st : bstate) (c : converter) : Prop :=
+  exists units,
+    c_units c = map ub_unit units /\ c_default c = b_default st /\
+    (forall q, best_for cfg_new (b_best st) (c_index c) units q = Done (ROk (c_best c q))) /\
+    build_fractions_config (b_fractions st) (c_index c) units = Done (ROk (c_fractions c)).
+
+Lemma finish_facts st c : finish cfg_new st = Done (ROk c) -> FinishFacts st c.
+Proof.
+  unfold finish. intro H.
+  apply bind_ok in H as ([units1 ix1] & _ & H). apply bind_ok in H as ([units ix] & _ & H).
+  apply bind_ok in H as (bv & Hv & H). apply bind_ok in H as (bm & Hm & H).
+  apply bind_ok in H as (bl & Hl & H). apply bind_ok in H as (bt & Ht & H).
+  apply bind_ok in H as (bh & Hh & H). apply bind_ok in H as (fr & Hfr & H).
+  injection H as <-. exists units. cbn. split; [reflexivity|]. split; [reflexivity|].
+  split; [|exact Hfr]. intros []; assumption.
+Qed.
+
+(* partial correctness only: nothing is said about panics *)
+Definition post {A} (m : M A) (P : A -> Prop) : Prop :=
+  match m with Done (ROk a) => P a | _ => True end.
+
+Lemma post_bind {A B} (m : M A) (f : A -> M B) P Q :
+  post m P -> (forall a, P a -> post (f a) Q) -> post (bind m f) Q.
+Proof. destruct m as [[a|e]|s]; cbn; auto. Qed.
+
+Lemma post_ok {A} (m : M A) P a : post m P -> m = Done (ROk a) -> P a.
+Proof. intros H ->. exact H. Qed.
+
+(* the ids of a best list are those its names resolve to *)
+Lemma best_ids_resolves c q ix units : forall ns,
+  post (best_ids c q ns ix units) (fun l => Forall2 (fun n i => find n ix = Some i) ns (map fst l)).
+Proof.
+  induction ns as [|n r IH]; cbn [best_ids]; [constructor|].
+  unfold get_unit_id. destruct (find n ix) as [id|] eqn:Hf; cbn [lift bind]; [|exact I].
+  unfold get_ub. destruct (nth_error units id) as [u|]; [|exact I]. cbn [bind ret].
+  destruct (_ && _); [exact I|].
+  eapply post_bind; [exact IH|]. intros rest F. cbn. constructor; assumption.
+Qed.
+
+Lemma best_thresholds_ids base : forall l l', best_thresholds base l = Done l' -> map snd l' = map fst l.
+Proof.
+  induction l as [|[id u] r IH]; intros l' H; cbn [best_thresholds] in H.
+  - injection H as <-. reflexivity.
+  - destruct (convert_q 1 u base) as [v|s]; [|discriminate]. cbn [obind] in H.
+    destruct (best_thresholds base r) as [rest|s]; [|discriminate]. cbn [obind] in H.
+    injection H as <-. cbn. f_equal. apply IH. reflexivity.
+Qed.
+
+Definition resolves_ix (ix : index) (ns : list str) (l : list (Q * nat)) : Prop :=
+  exists ids, Forall2 (fun n i => find n ix = Some i) ns ids /\ Permutation ids (map snd l).
+
+Lemma best_new_resolves c q ns ix units : post (best_new c q ns ix units) (resolves_ix ix ns).
+Proof.
+  unfold best_new. eapply post_bind; [apply best_ids_resolves|]. intros ids F.
+  pose proof (sort_perm ids) as Pm.
+  destruct (sort_by_ratio ids) as [|[bid bu] rest]; [exact I|].
+  destruct (best_thresholds bu rest) as [l|s] eqn:E; [|exact I]. cbn.
+  exists (map fst ids). split; [exact F|].
+  apply best_thresholds_ids in E. cbn [map snd]. rewrite E.
+  apply (Permutation_map fst) in Pm. exact Pm.
+Qed.
+
+Definition store_from (ix : index) (b : best_units) (s : best_store) : Prop :=
+  match b, s with
+  | BUnified ns, SUnified l => resolves_ix ix ns l
+  | BBySystem m i, SBySystem lm li => resolves_ix ix m lm /\ resolves_ix ix i li
+  | _, _ => False
+  end.
+
+Lemma store_new_resolves c q b ix units : post (store_new c q b ix units) (store_from ix b).
+Proof.
+  destruct b as [ns|m i]; cbn [store_new].
+  - eapply post_bind; [apply best_new_resolves|]. intros l H. exact H.
+  - eapply post_bind; [apply best_new_resolves|]. intros lm Hm.
+    eapply post_bind; [apply best_new_resolves|]. intros li Hi. cbn. split; assumption.
+Qed.
+
+(* the three whole-file fractions settings *)
+Lemma last_some_last_set sel : forall frs d,
+  fold_left (fun acc cfg => o_or (option_map fw_get (sel cfg)) acc) frs (option_map fw_get d) =
+  option_map fw_get (last_set sel frs d).
+Proof.
+  induction frs as [|f r IH]; intro d; cbn [fold_left last_set]; [reflexivity|].
+  rewrite <- IH. f_equal. destruct (sel f); reflexivity.
+Qed.
+
+Lemma fractions_heads frs ix units fr : build_fractions_config frs ix units = Done (ROk fr) ->
+  cf_all fr = defined (last_set fr_all frs None) /\
+  cf_metric fr = defined (last_set fr_metric frs None) /\
+  cf_imperial fr = defined (last_set fr_imperial frs None).
+Proof.
+  unfold build_fractions_config. intro H. apply bind_ok in H as (us & _ & H). injection H as <-.
+  cbn [cf_all cf_metric cf_imperial]. unfold last_some, defined.
+  rewrite !(last_some_last_set _ _ None). 
+  split; [|split]; destruct (last_set _ frs None); reflexivity.
+Qed.
+
+Definition layers_stmt (files : list units_file) (c : converter) : Prop :=
+  Some (c_default c) = last_given uf_default_system files (Some Metric) /\
+  (forall q, exists b, last_best q files = Some b /\ best_from c q b) /\
+  cf_all (c_fractions c) = defined (last_set fr_all (fractions_layers files) None) /\
+  cf_metric (c_fractions c) = defined (last_set fr_metric (fractions_layers files) None) /\
+  cf_imperial (c_fractions c) = defined (last_set fr_imperial (fractions_layers files) None).
+
+Lemma build_layers files c : build cfg_new files = Done (ROk c) -> layers_stmt files c.
+Proof.
+  unfold build. intro H. apply bind_ok in H as (st & Hst & H). unfold lift in Hst. injection Hst as Hst.
+  apply add_files_facts in Hst as (A1 & A2 & _ & A4). cbn [bstate0 b_default b_fractions b_best app] in *.
+  apply finish_facts in H as (units & Hu & Hd & Hb & Hf).
+  split; [rewrite Hd; exact A1|]. split.
+  - intro q. specialize (Hb q). unfold best_for in Hb. rewrite A4 in Hb.
+    change (fold_left (fun acc f => fold_left (best_step q) (uf_quantity f) acc) files None)
+      with (last_best q files) in Hb.
+    destruct (last_best q files) as [b|]; [|discriminate]. exists b. split; [reflexivity|].
+    pose proof (post_ok _ _ _ (store_new_resolves cfg_new q b (c_index c) units) Hb) as R.
+    unfold best_from. destruct b as [ns|m i], (c_best c q) as [l|lm li]; cbn in R; try exact R.
+  - rewrite A2 in Hf. exact (fractions_heads _ _ _ _ Hf).
+Qed.
+
+Lemma add_files_tables files st : add_files bstate0 files = ROk st ->
+  (si_prefixes (b_si st), si_symbol_prefixes (b_si st)) = final_tables files.
+Proof. intro H. apply add_files_facts in H as (_ & _ & A3 & _). exact A3. Qed.
+
+Lemma edit_unit_layered u e p : edit_unit u e p = layered_unit u e p.
+Proof. unfold edit_unit, layered_unit. destruct p; reflexivity. Qed.
